@@ -31,6 +31,32 @@ EB = "ramses_rf.entity_base"
 SC = "ramses_rf.schemas"
 
 
+
+def _add_family(repo: Any, add: FuncInfo) -> set[str]:
+    """Methods of _add_child's class that only _add_child calls, handing them the child under the same name (self.h(child, ...)):
+    a role assignment there is part of _add_child (its change check is looked for in the same way)."""
+    cached = getattr(repo, "_c15_add_family", None)
+    if cached is not None:
+        return cached
+    cls_q = add.qualname.rsplit(".", 1)[0]
+    fam: set[str] = set()
+    for n in own_nodes(add.node):
+        if isinstance(n, ast.Call) and isinstance(n.func, ast.Attribute) and norm(n.func.value) == "self":
+            h = repo.funcs.get(f"{cls_q}.{n.func.attr}")
+            if h is None:
+                continue
+            params = [a.arg for a in h.node.args.args][1:]
+            if not any(norm(a) == "child" and i < len(params) and params[i] == "child" for i, a in enumerate(n.args)) and not any(k.arg == "child" and norm(k.value) == "child" for k in n.keywords):
+                continue
+            others = [g for g in repo.funcs.values() if g is not add and g is not h and any(isinstance(c, ast.Call) and isinstance(c.func, ast.Attribute) and c.func.attr == h.name for c in ast.walk(g.node))]
+            if not others:
+                fam.add(h.qualname)
+    try:
+        repo._c15_add_family = fam
+    except Exception:  # noqa: BLE001
+        pass
+    return fam
+
 def vol_literal_keys(ctx: Ctx, m: Module, name: str) -> tuple[set[str], list[str], str | None]:
     """(literal keys, pattern keys, extra policy) of a vol.Schema({...}) / dict display bound to `name`."""
     val = None
@@ -215,7 +241,7 @@ def check(ctx: Ctx) -> list[RuleResult]:
                     if isinstance(v, ast.Constant) and v.value is None:
                         r1.fail(f"{f.short}:{norm(t)}:cleared", f.loc(n), f"{f.short} clears {norm(t)} outside a constructor: the device that held the role stays bound to this parent (its own _parent/_child_id are untouched), so the next device offered for the role is accepted without the change being reported")
                         continue
-                    if f is add:
+                    if f is add or f.qualname in _add_family(repo, add):
                         par = getattr(n, "parent", None)
                         sibs = par.body if isinstance(par, ast.If) and n in par.body else []
                         guard = [s for s in sibs[: sibs.index(n)] if isinstance(s, ast.If) and any(isinstance(b, ast.Raise) and "SystemSchemaInconsistent" in norm(b) for b in s.body) and "is not child" in norm(s.test)] if sibs else []
@@ -421,13 +447,36 @@ def check(ctx: Ctx) -> list[RuleResult]:
                 return getattr(_ns_attrs.get(kind), "pattern", None), names[0]
         raise AnalysisError(f"{schema_name} has no key {key_const}")
 
-    for n in own_nodes(add.node):
-        if not (isinstance(n, ast.Assign) and len(n.targets) == 1 and isinstance(n.targets[0], ast.Attribute) and n.targets[0].attr in role_key and norm(n.value) == "child"):
+    # the role assignments may live in _add_child itself or in a method of the same class that _add_child hands the child to
+    # (self.helper(child, ...)); followed to depth 2, the helper's own name for the child is used inside it
+    role_sites: list[tuple[Any, ast.AST, str]] = []
+    todo: list[tuple[Any, str, int]] = [(add, "child", 0)]
+    seen_fns: set[str] = set()
+    while todo:
+        fi, cname, depth = todo.pop()
+        if fi.qualname in seen_fns:
             continue
+        seen_fns.add(fi.qualname)
+        for n in own_nodes(fi.node):
+            if isinstance(n, ast.Assign) and len(n.targets) == 1 and isinstance(n.targets[0], ast.Attribute) and n.targets[0].attr in role_key and norm(n.value) == cname:
+                role_sites.append((fi, n, cname))
+            elif depth < 2 and isinstance(n, ast.Call) and isinstance(n.func, ast.Attribute) and norm(n.func.value) == "self":
+                hq = f"{add.qualname.rsplit('.', 1)[0]}.{n.func.attr}"
+                h = repo.funcs.get(hq)
+                if h is None:
+                    continue
+                params = [a.arg for a in h.node.args.args][1:]
+                for i, a in enumerate(n.args):
+                    if norm(a) == cname and i < len(params):
+                        todo.append((h, params[i], depth + 1))
+                for kw in n.keywords:
+                    if kw.arg and norm(kw.value) == cname:
+                        todo.append((h, kw.arg, depth + 1))
+    for fi, n, cname in role_sites:
         br = branch_of(n)
         if br is None:
             continue
-        constrained = any(isinstance(c, ast.Call) and norm(c.func) == "isinstance" and c.args and norm(c.args[0]) == "child" for st in br.body for c in ast.walk(st)) or any(isinstance(x, ast.Attribute) and norm(x) in ("child.type", "child._SLUG", "child.id") for st in br.body for x in ast.walk(st))
+        constrained = any(isinstance(c, ast.Call) and norm(c.func) == "isinstance" and c.args and norm(c.args[0]) == cname for st in br.body for c in ast.walk(st)) or any(isinstance(x, ast.Attribute) and norm(x) in (f"{cname}.type", f"{cname}._SLUG", f"{cname}.id") for st in br.body for x in ast.walk(st))
         r5.instances += 1
         attr = n.targets[0].attr
         sch_name, key_const = role_key[attr]
@@ -442,7 +491,7 @@ def check(ctx: Ctx) -> list[RuleResult]:
         if w is None:
             r5.ok({"role": attr, "validator": vname, "accepts": "every well-formed device id"})
         else:
-            r5.fail(f"{add.short}:{attr}:any-device-vs-{vname}", add.loc(n), f"Parent._add_child accepts a device of any type as {attr[1:].replace('_', ' ')} (no type test in that branch), but the schema key it is reported under is validated by {vname} ({pat}), which rejects e.g. '{w}': the reported schema is then refused by the library's own validator")
+            r5.fail(f"{add.short}:{attr}:any-device-vs-{vname}", fi.loc(n), f"Parent._add_child accepts a device of any type as {attr[1:].replace('_', ' ')} (no type test in that branch), but the schema key it is reported under is validated by {vname} ({pat}), which rejects e.g. '{w}': the reported schema is then refused by the library's own validator")
     if r5.instances == 0:
         raise AnalysisError("Parent._add_child: no role assignment found")
     out.append(r5)
